@@ -9,7 +9,7 @@ MCLeq(a, b) == a <= b
 MCMerOf(ch) == IF ch = 2 THEN "M2" ELSE "M1"
 MCInitBals  == {<<c, m>> : c \in 0..MCMaxBal, m \in 0..MCMaxBal}
 MCAmounts   == {[neg |-> i < 0, mag |-> IF i < 0 THEN -i ELSE i] : i \in (-AmtRange)..AmtRange}
-MCFaults    == {"garbage", "altbal", "altcid", "altlock", "wrongtype", "oldstate", "otherkey", "wrongbf", "identity", "smallorder", "swapbal", "altslot2", "otherbf"}
+MCFaults    == {"garbage", "altbal", "altcid", "altlock", "wrongtype", "oldstate", "otherkey", "wrongbf", "identity", "smallorder", "swapbal", "altslot2", "otherbf", "altcid_hi"}
 MCRevKinds  == {"newstate", "wrongbf", "otherchan", "bothwrong", "laterindex", "shiftedbf"}
 MCNone      == {}
 MCInitBalsCover == {<<0, 0>>, <<7, 0>>, <<0, 7>>, <<3, 4>>, <<7, 7>>, <<1, 6>>}
